@@ -11,6 +11,7 @@ Values live in `Except Err (Option Rat)`: "raises" (the engine then emits nothin
 the equalities below.  The theorems hold for the pinned step bodies and for the bodies after `fixes/C13-*.patch`.
 -/
 import Frequenz.Lemmas.ShuntingBuild
+import Frequenz.Lemmas.ShuntingTie
 
 open Formula
 open Extracted.Formula (prec)
@@ -111,3 +112,40 @@ example : (F.id 2 []).raw = [.metric ['2']] := by decide
 
 example : hoBuild (.pushB (.pushEng (.start 1) .max 2) .mul (.un (.start 3) .cons)) false =
     [.metric 1 false, .metric 2 false, .op .max, .metric 3 false, .op .cons, .op .mul] := by decide
+
+/-- **The hand-written builder model is the current source text** (`_formula_engine.py`).
+`Extracted.FormulaLoops.*` is machine-translated on every run: `FormulaBuilder.push_oper` (guard, the pop loop over the
+build stack — as ONE iteration under the generic loop combinator `pyLoop` —, the push; once per operator string, so the
+dispatch code is executed, not pattern-matched), `finalize`, `push_metric` / `push_constant` / `push_clipper`, and
+`_BaseHOFormulaBuilder.__init__ / _push` (through `__add__` … `min`) `/ consumption / production`.  For ALL arguments:
+(1) the translated `push_oper` is `Formula.pushOper` (`popLoop` included; the fuel passed by the translation suffices);
+(2) the translated `finalize` is `Formula.finalize` and leaves the build stack empty; (3) the translated `push_metric`
+/ `push_constant` / `push_clipper` are the corresponding arms of `pushTok`; (4) hence `Formula.build` is the builder
+assembled only from translated methods; (5) the deque built by the translated composition methods is `HO.toks`, token
+by token, no operation of an `HO` expression raises, `hoBuild` is the composition of the translated pieces, and
+`_push` raises `RuntimeError` exactly for the operand classes of `ShuntingTie.pushAccepts`; (6) the translated
+`Tokenizer.__next__` (with `_read_unsigned_int`; both loops under `pyLoopM`) is `ShuntingTie.nextSpec`, and calling it until
+`StopIteration` is `Formula.tokenize` (`none` = `ValueError`). -/
+theorem C05_model_is_source :
+    (∀ (o : Op) (stack : List Op) (steps : List Step),
+      Extracted.FormulaLoops.pushOper o stack steps =
+        ((pushOper { stack := stack, steps := steps } o).stack, (pushOper { stack := stack, steps := steps } o).steps)) ∧
+    (∀ (stack : List Op) (steps : List Step),
+      Extracted.FormulaLoops.finalize stack steps = ([], finalize { stack := stack, steps := steps })) ∧
+    (∀ (b : Builder) (n : Nat) (z : Bool),
+      Extracted.FormulaLoops.pushMetric b.fetchers b.steps n z = ((pushMetric b n z).fetchers, (pushMetric b n z).steps) ∧
+      (pushMetric b n z).stack = b.stack) ∧
+    (∀ (b : Builder) (c : Rat) (lo hi : Option Rat),
+      Extracted.FormulaLoops.pushConstant b.steps c = (pushTok b (.const c)).steps ∧
+      Extracted.FormulaLoops.pushClipper b.steps lo hi = (pushTok b (.clip lo hi)).steps) ∧
+    (∀ toks : List Tok, build toks = ShuntingTie.srcBuild toks) ∧
+    (∀ (z : Bool) (h : HO), (ShuntingTie.hoSrc h).map (List.map (ShuntingTie.tokOfH z)) = some (h.toks z)) ∧
+    (∀ (h : HO) (z : Bool),
+      (ShuntingTie.hoSrc h).map (fun d => ShuntingTie.srcBuild (d.map (ShuntingTie.tokOfH z))) = some (hoBuild h z)) ∧
+    (∀ (o : BinOp) (s : List Extracted.FormulaLoops.HTok) (x : Extracted.FormulaLoops.Operand),
+      (Extracted.FormulaLoops.hoPush o s x).isSome = ShuntingTie.pushAccepts o x) ∧
+    (∀ rest : List Char, Extracted.FormulaLoops.nextToken rest = ShuntingTie.nextSpec rest) ∧
+    (∀ s : List Char, tokenize s = ShuntingTie.srcTokens (s.length + 1) s) :=
+  ⟨ShuntingTie.pushOper_eq, ShuntingTie.finalize_eq, ShuntingTie.pushMetric_eq, ShuntingTie.pushConstClip_eq,
+   ShuntingTie.build_eq_source, ShuntingTie.hoSrc_toks, ShuntingTie.hoBuild_eq_source, ShuntingTie.hoPush_isSome,
+   ShuntingTie.nextToken_eq, ShuntingTie.tokenize_eq_source⟩
